@@ -11,6 +11,12 @@ CLAIMS = {
     "C14": ("proof", "MIR dominance rule: checksum test must dominate every use of a parsed chunk (must-check-before-use) + return-value tables + provenance of Header.hash",
             "Enumerates every Chunk::parse call site reachable from a byte-taking load entry point and proves on the CFG that all content uses of the chunk are dominated by the checksum_valid()==true edge and that the false edge only returns Err; plus per-variant delegation to Header::checksum_valid and hash provenance. Finite obligation set, all discharged on every run.",
             "Decides the checksum-before-use discipline, not the collision resistance of the 32-bit checksum nor panic-freedom of the parser that runs before the test (C15). Trusted: rustc MIR, the driver, rule code.", "DESIGN.md §3 C14"),
+    "C22": ("proof", "MIR edge-dominance (control dependence) of every document-mutating construct on `sync_state.read_only == false`; delegation-only check of wrappers; &self receiver and interior-mutability scan for message generation",
+            "Enumerates every call/write in the receive path that can mutate the Automerge document (typed &mut arguments and writes rooted at the document parameter) and proves each is dominated by the read_only==false edge; every other SyncDoc::receive_* implementation may only delegate; generate_sync_message implementations take &self and no reachable field type has interior mutability. Finite obligations, all discharged.",
+            "Decides that a read-only peer's document cannot be mutated by receiving; does not decide the liveness halves of the property (other peer receives everything, catch-up after toggling). AutoCommit's wrapper commits the user's own pending transaction before receiving; that is local state, not incoming changes.", "DESIGN.md §3 C22"),
+    "C38": ("proof", "who-may-call closure over the resolved call graph + MIR edge-dominance of duplicate-sequence tests before admission + provenance of the local sequence number",
+            "Closes the set of functions that can add a change to the change graph (add_change(s), update_history, BatchApply, ChangeQueue::extend, ChangeBatch::push) and proves, inside the single admission function, that accepting a change is dominated by the false edges of both has_actor_seq tests (true edges return Err), that the queue is only extended after the loop, that BatchApply is fed from pop_topo_sorted_ready, that ChangeBatch::push tests in-batch duplicates before inserting, and that a local commit's seq is seq_for_actor+1 with the conflicting queued branch removed first.",
+            "Decides the gating structure, not that the predicates compute the right answer for every history; ChangeGraph::load (ChangeCollector) is not covered.", "DESIGN.md §3 C38"),
 }
 
 NA_PLANNED = "rule designed in DESIGN.md §3 but its checker is not built in this revision, so nothing is claimed yet"
